@@ -270,6 +270,10 @@ func (c *Ctx) invariant(t types.Type, v *Term, depth int) *Term {
 		return c.True
 	}
 	s := v.Sort
+	if isFpNamed(t, "Either") {
+		// A2: Either values are built by Left/Right (IsLeft = ¬IsRight) and are non-nil
+		return c.And(c.Eq(c.App("m_IsLeft__Bool", c.Bool, v), c.Not(c.App("m_IsRight__Bool", c.Bool, v))), c.Not(c.Eq(v, c.NilIface())))
+	}
 	switch u := t.Underlying().(type) {
 	case *types.Pointer, *types.Map, *types.Chan:
 		return c.Cmp("<=", c.IntLit(0), v)
@@ -295,4 +299,9 @@ func (c *Ctx) invariant(t types.Type, v *Term, depth int) *Term {
 		return c.And(cs...)
 	}
 	return c.True
+}
+
+func isFpNamed(t types.Type, name string) bool {
+	n, ok := types.Unalias(t).(*types.Named)
+	return ok && n.Obj().Pkg() != nil && n.Obj().Pkg().Path() == fpPath && n.Obj().Name() == name
 }
